@@ -741,8 +741,12 @@ class Engine(object):
             n = v.width // 2
             inr = z3.And(v.value >= 0, v.value < 16 ** v.width)
             if not ex.ctx.branch(inr):
-                # '%0Nx' grows beyond N digits (or prints a sign): a2b_hex then fails or yields more bytes
-                raise Unsupported("hex text wider than its field")
+                # '%0Nx' grows beyond N digits (or prints a sign): with a sign, or with ONE more digit (an odd number of
+                # them), a2b_hex refuses the text; two more digits would be one more byte (not modelled)
+                import binascii
+                if ex.ctx.branch(z3.Or(v.value < 0, v.value < 16 ** (v.width + 1))):
+                    raise Raised(binascii.Error, line, implicit=True)
+                raise Unsupported("hex text wider than its field by two digits or more")
             arr = z3.K(INT, z3.IntVal(0))
             for i in range(n):
                 arr = z3.Store(arr, i, (v.value / (256 ** (n - 1 - i))) % 256)
